@@ -254,84 +254,66 @@ def tlc_records(run, module, files, par=6):
     return total, bad
 
 
-def tlc_trace_one(run, module, path, cfg=None, timeout=1800, xmx="4g", deque=True):
-    """Validate one ndjson file of concatenated traces against a trace spec.
-    Returns (events, accepted, mark) where mark is the highest line consumed."""
+def tlc_trace_one(run, module, path, cfg=None, timeout=3600, xmx="4g"):
+    """Validate one ndjson file of concatenated traces against a trace spec (single
+    pass; the spec skips a rejected trace and records it).  Returns
+    (events, [(line, why)]) - line = 1-based line of the rejected event."""
     md = path + ".md"
     args = ["-metadir", md, "-workers", "1", "-nowarning", "-config", (cfg or module) + ".cfg",
             module + ".tla"]
-    rc, out = java(args, SPEC, env={"VERIF_FILE": path}, timeout=timeout, xmx=xmx, deque=deque)
+    rc, out = java(args, SPEC, env={"VERIF_FILE": path}, timeout=timeout, xmx=xmx)
     shutil.rmtree(md, ignore_errors=True)
     m = re.search(r'"VERIF-TRACE",\s*(\d+)', out)
     if not m:
         raise Infra("TLC could not read trace %s with %s:\n%s" % (path, module, clean(out)[-3000:]))
     n = int(m.group(1))
-    m2 = re.findall(r'"VERIF-MARK",\s*(\d+)', out)
-    if not m2:
-        raise Infra("trace validation of %s with %s gave no mark (evaluation error?):\n%s" % (
-            path, module, clean(out)[-4000:]))
-    mark = int(m2[-1])
-    if "Error:" in out and "Postcondition" not in out and "postcondition" not in out \
-            and "is false" not in out:
-        raise Infra("TLC error validating %s with %s:\n%s" % (path, module, clean(out)[-4000:]))
-    return n, mark >= n, mark
+    i = out.find('"VERIF-DONE"')
+    if i < 0 or rc != 0:
+        raise Infra("trace validation of %s with %s did not complete (rc=%d; evaluation error?):\n%s" % (
+            path, module, rc, clean(out)[-4000:]))
+    j = out.find("Model checking completed", i)
+    seg = out[i:j if j > 0 else len(out)]
+    cnt = int(re.search(r'"VERIF-DONE",\s*(\d+)', seg).group(1))
+    rej = [(int(a), b) for a, b in re.findall(r'<<\s*(\d+),\s*"([^"]*)"\s*>>', seg)]
+    if len(rej) != cnt:
+        raise Infra("could not parse rejections (%d vs %d):\n%s" % (len(rej), cnt, seg[:2000]))
+    return n, rej
 
 
 def split_traces(path):
-    """An ndjson trace file -> list of (key, [lines]) ; a trace starts at ev=setup."""
+    """An ndjson trace file -> list of (key, first_line_no, [lines]); a trace starts at ev=setup."""
     traces = []
-    for line in open(path):
+    for i, line in enumerate(open(path), 1):
         if '"ev":"setup"' in line:
             key = json.loads(line).get("key", "?")
-            traces.append((key, []))
-        traces[-1][1].append(line)
+            traces.append((key, i, []))
+        traces[-1][2].append(line)
     return traces
 
 
-def tlc_traces(run, module, files, cfg=None, par=6, max_rejects=20):
-    """Validate trace files; on a rejection, locate the trace, drop it and continue so
-    later traces are still examined.  Returns (ntraces, nevents, [(key, line_in_trace, lines)])."""
-    rejected = []
-    stats = dict(traces=0, events=0)
-
+def tlc_traces(run, module, files, cfg=None, par=6):
+    """Validate trace files.  Returns (ntraces, nevents, [(key, event_in_trace, lines, why)])."""
     def one(f):
-        rej = []
         traces = split_traces(f)
-        cur = f
-        rounds = 0
-        while True:
-            n, ok, mark = tlc_trace_one(run, module, cur, cfg)
-            if ok:
-                break
-            # find the trace containing line mark+1 (1-based)
-            pos = 0
-            idx = None
-            for ti, (key, lines) in enumerate(traces):
-                if pos + len(lines) >= mark + 1:
-                    idx = ti
+        n, rej = tlc_trace_one(run, module, f, cfg)
+        out = []
+        for line, why in rej:
+            for key, first, lines in traces:
+                if first <= line < first + len(lines):
+                    out.append((key, line - first, lines, why))
                     break
-                pos += len(lines)
-            if idx is None:
-                raise Infra("cannot locate rejected line %d in %s" % (mark + 1, cur))
-            key, lines = traces.pop(idx)
-            rej.append((key, mark + 1 - pos, lines))
-            rounds += 1
-            if rounds >= max_rejects:
-                break
-            cur = f + ".r%d" % rounds
-            with open(cur, "w") as o:
-                for _, ls in traces:
-                    o.writelines(ls)
-            if not traces:
-                break
-        return len(traces) + len(rej), sum(len(l) for _, l in traces), rej
+            else:
+                raise Infra("cannot locate rejected line %d in %s" % (line, f))
+        return len(traces), n, out
 
+    nt = ne = 0
+    rejected = []
     with ThreadPoolExecutor(max_workers=par) as ex:
-        for nt, ne, rej in ex.map(one, files):
-            stats["traces"] += nt
-            stats["events"] += ne
-            rejected += rej
-    return stats["traces"], stats["events"], rejected
+        for a, b, c in ex.map(one, files):
+            nt += a
+            ne += b
+            rejected += c
+    return nt, ne, rejected
 
 
 def seed_tier(argv):
